@@ -1,0 +1,42 @@
+//go:build verif && vectors
+
+package zap
+
+import (
+	"time"
+
+	segment "github.com/blevesearch/scorch_segment_api/v2"
+)
+
+func verifSegmentBase(seg segment.Segment) *SegmentBase {
+	switch sx := seg.(type) {
+	case *Segment:
+		return &sx.SegmentBase
+	case *SegmentBase:
+		return sx
+	}
+	panic("verif: unexpected segment type")
+}
+
+// VerifVectorCacheExpire runs one synchronous pass of the vector index cache's
+// expiry logic (what the monitor goroutine does on every tick) and reports
+// whether the cache is empty afterwards.
+func VerifVectorCacheExpire(seg segment.Segment) bool {
+	return verifSegmentBase(seg).vecIndexCache.cleanup()
+}
+
+// VerifVectorCacheLen reports the number of cached vector indexes.
+func VerifVectorCacheLen(seg segment.Segment) int {
+	vc := verifSegmentBase(seg).vecIndexCache
+	vc.m.RLock()
+	defer vc.m.RUnlock()
+	return len(vc.cache)
+}
+
+// VerifSetVectorMonitorFreq sets the period of the cache expiry monitor
+// (read when a monitor goroutine starts) and returns the previous value.
+func VerifSetVectorMonitorFreq(d time.Duration) time.Duration {
+	old := monitorFreq
+	monitorFreq = d
+	return old
+}
